@@ -14,6 +14,7 @@ oracle(): the property itself, evaluated on what was recorded from the real obje
 """
 import itertools, json, re
 import checklib
+import c11del
 from checklib import Prop
 
 ARCHES = ["x86_64", "i386", "ppc64le", "ppc64", "ppc"]      # incl. a family of names that are prefixes of each other
@@ -947,6 +948,9 @@ class C11(Prop):
     }
 
     def cases(self, rng, tier, budget):
+        # the del stream (VariantBase.__delitem__): one case in four on top of the add histories
+        for i in range(budget // 4):
+            yield c11del.DelGen(rng, tier, (i % 5) >= 3).case()
         if tier == "quick":
             for i in range(budget):
                 yield Gen(rng, tier, (i % 5) >= 3, untyped=(i % 12 == 5)).case()
@@ -963,11 +967,15 @@ class C11(Prop):
         self._cache = {}
 
     def real(self, case):
+        if case["op"] == "c11del":
+            return c11del.execute(case)
         out = execute(case)
         self._cache[checklib.key_of(case)] = out
         return out
 
     def model_requests(self, case):
+        if case["op"] == "c11del":
+            return c11del.model_requests(case)
         a = case["args"]
         if a.get("untyped"):
             self._cache.pop(checklib.key_of(case), None)
@@ -988,6 +996,8 @@ class C11(Prop):
         return [{"out": s["out"], "top": s["top"], "kids": s["kids"], "parent": s["parent"], "byuid": s["byuid"]} for s in steps]
 
     def compare(self, case, real_out, model_out):
+        if case["op"] == "c11del":
+            return c11del.compare(case, real_out, model_out)
         r = {"steps": self._proj_steps(real_out["steps"]), "qres": real_out["qres"]}
         m = {"steps": self._proj_steps(model_out[0]["steps"]), "qres": model_out[0]["queries"]}
         rl = real_out.get("reload")
@@ -1011,10 +1021,11 @@ class C11(Prop):
         return None
 
     def oracle(self, case, real_out):
-        fails = oracle_run(case, real_out)
+        is_del = case["op"] == "c11del"
+        fails = c11del.oracle_run(case, real_out) if is_del else oracle_run(case, real_out)
         if not fails:
             return None
-        unexplained = [f for f in fails if not _explained(f)]
+        unexplained = [f for f in fails if not (c11del.explained(f) if is_del else _explained(f))]
         # among explained failures report the rarer ones first (the F28 'self' queries fail on every forest of the nasty stream)
         order = sorted(fails, key=lambda f_: (f_["kind"] != "reload-failed", f_["kind"].startswith("gv-")))
         f = (unexplained or order)[0]
@@ -1025,6 +1036,8 @@ class C11(Prop):
         return "ok" in outs
 
     def stats(self, case, real_out, dist):
+        if case["op"] == "c11del":
+            return c11del.stats(case, real_out, dist)
         for op, s in zip(case["args"]["ops"], real_out["steps"]):
             k = "op:%s:%s" % (op.get("kind", "?"), "ok" if s["out"] == "ok" else s["out"])
             dist[k] = dist.get(k, 0) + 1
@@ -1049,6 +1062,8 @@ class C11(Prop):
         dist["gv-queries"] = dist.get("gv-queries", 0) + len(real_out["queries"]) + (len(rl["queries"]) if rl and "ops" in rl else 0)
 
     def shrink_candidates(self, case):
+        if case["op"] == "c11del":
+            return c11del.shrink_candidates(case)
         a = case["args"]
         out = []
         ops = a["ops"]
